@@ -263,3 +263,14 @@ reg('C12', engine='llsym',
     note='Trusted: clang IR, llsym semantics, CPython contracts. Functions/variables plumbing is C13; import machinery, '
          'verify() and the compile step are outside.',
     technique='symbolic execution of LLVM IR (backend + run-time generated module) with the C compiler\'s answers as symbolic inputs, SMT (z3)')
+
+reg('C14', engine='llsym',
+    text='The real prepare_callback_info_tuple + general_invoke_callback + convert_from_object_fficallback in both decoding '
+         'modes (libffi void*[] / extern "Python" 8-byte slots) with the Python function and onerror as nondeterministic '
+         'stubs (value | unconvertible | raises | None): arguments reach Python exactly; a convertible result reaches C exactly '
+         '(widened to a whole ffi_arg through libffi); otherwise C receives the error= value (or onerror\'s convertible value); '
+         'no exception is pending on return; swallowed exceptions are reported.  Plus the extern "Python" wrappers generated at '
+         'run time by the working tree\'s Recompiler, executed with cffi_call_python and the above.',
+    note='Trusted: clang IR, llsym semantics, CPython contracts (PyErr_Fetch/Restore, unraisable hook). libffi closure '
+         'trampoline, struct/long double/pointer signatures, sub-interpreter refresh are outside.',
+    technique='symbolic execution of LLVM IR (backend + run-time generated module) with nondeterministic Python-function stubs, SMT (z3)')
